@@ -209,6 +209,8 @@ fn make_stream(ep: &UDPEndpoint, tsi: u64, seed: u64, nobj: u32) -> Stream {
 }
 
 thread_local! {
+    /// annotation of the last executed operation: ` #<key>=<n>` per session = number of writer callbacks it made
+    static LAST_ANNOT: RefCell<String> = RefCell::new(String::new());
     static STREAMS: RefCell<HashMap<String, Rc<Stream>>> = RefCell::new(HashMap::new());
 }
 
@@ -261,7 +263,9 @@ enum HOp {
     Filt(bool),
     /// `neutral`: for a packet edited in a way that must not change what it delivers (A flag set, CCI rewritten)
     /// the unedited packet; `a_edit`: the edit set the Close Session flag; `close`: the stream's bare close packet
-    Push { ep: UDPEndpoint, key: String, data: Rc<Vec<u8>>, now: SystemTime, neutral: Option<Rc<Vec<u8>>>, a_edit: bool, close: Option<Rc<Vec<u8>>> },
+    /// `acc`: the independent reference counters accept the packet at that point
+    Push { ep: UDPEndpoint, key: String, data: Rc<Vec<u8>>, now: SystemTime, neutral: Option<Rc<Vec<u8>>>, a_edit: bool, close: Option<Rc<Vec<u8>>>, acc: bool },
+    Tick,
     Cleanup(SystemTime),
     Drop,
 }
@@ -491,6 +495,23 @@ impl TsiEngine {
         bits
     }
 
+    /// `cb=<key>,<key>,...` (the (endpoint, tsi) carried by every writer callback of the call, sorted) and the
+    /// annotation handed to the model (how many callbacks per session)
+    fn cb_obs(obs: String, cbs: &[Cb]) -> String {
+        if cbs.is_empty() {
+            return obs;
+        }
+        let mut ks: Vec<&str> = cbs.iter().map(|c| c.key.as_str()).collect();
+        ks.sort();
+        let mut cnt: BTreeMap<&str, usize> = BTreeMap::new();
+        for k in ks.iter() {
+            *cnt.entry(k).or_insert(0) += 1;
+        }
+        let annot: String = cnt.iter().map(|(k, n)| format!(" #{}={}", k, n)).collect();
+        LAST_ANNOT.with(|a| *a.borrow_mut() = annot);
+        format!("{} cb={}", obs, ks.join(","))
+    }
+
     fn events_obs(pre: &str, evs: &[(bool, String)], sort: bool) -> String {
         let mut v: Vec<String> = evs.iter().map(|(op, k)| format!("{}{}", if *op { "+" } else { "-" }, k)).collect();
         if sort {
@@ -532,7 +553,8 @@ impl TsiEngine {
             if neutral.is_some() {
                 self.has_neutral_edits = true;
             }
-            self.hist.push(HOp::Push { ep: ep.clone(), key: key.clone(), data: data.clone(), now, neutral, a_edit, close });
+            let acc = self.spec.accepted(&ep, tsi);
+            self.hist.push(HOp::Push { ep: ep.clone(), key: key.clone(), data: data.clone(), now, neutral, a_edit, close, acc });
         }
         let r = {
             let l = self.live.as_mut().unwrap();
@@ -587,7 +609,7 @@ impl TsiEngine {
                 }
             }
         }
-        Self::events_obs(res, &evs, false)
+        Self::cb_obs(Self::events_obs(res, &evs, false), &cbs)
     }
 
     fn cleanup(&mut self, o: &mut Oracle) -> String {
@@ -629,7 +651,7 @@ impl TsiEngine {
                 }
             }
         }
-        Self::events_obs("ok", &evs, true)
+        Self::cb_obs(Self::events_obs("ok", &evs, true), &cbs)
     }
 
     fn do_drop(&mut self, o: &mut Oracle) -> String {
@@ -645,7 +667,14 @@ impl TsiEngine {
         }
         let evs: Vec<(bool, String)> = ev.borrow_mut().drain(..).collect();
         self.all_ev.extend(evs.iter().cloned());
-        self.all_cb.extend(cb.borrow_mut().drain(..));
+        let cbs: Vec<Cb> = cb.borrow_mut().drain(..).collect();
+        self.all_cb.extend(cbs.iter().cloned());
+        let pending_before = self.pending.clone();
+        for c in cbs.iter() {
+            if !pending_before.contains(&c.key) {
+                o.fail("callback-key", &format!("drop produced writer callback `{}` carrying {} which is no open session", c.what, c.key));
+            }
+        }
         for (op, k) in evs.iter() {
             if *op {
                 o.fail("listener-events", &format!("drop fired on_session_open for {}", k));
@@ -660,7 +689,7 @@ impl TsiEngine {
             self.pending.clear();
         }
         self.stale.clear();
-        Self::events_obs("ok", &evs, true)
+        Self::cb_obs(Self::events_obs("ok", &evs, true), &cbs)
     }
 
     /// sessions created over a stretch of time expire one after the other while `cleanup` runs continuously
@@ -714,50 +743,54 @@ impl TsiEngine {
         format!("opens {} closes {}", opens, closes)
     }
 
-    /// replay this case's history restricted to the packets of `key` on a fresh MultiReceiver.
-    /// `reference`: packets that were edited in a delivery-neutral, RFC-legal way are replaced by what they stand for:
-    /// a packet with the Close Session flag set = the same packet without the flag followed by a bare close-session
-    /// packet (ignored altogether, like any close indication, when the session does not exist); a rewritten CCI =
-    /// the unedited packet.
-    fn solo(&self, key: &str, reference: bool) -> (Vec<(bool, String)>, Vec<Cb>) {
-        let mut evs = Vec::new();
-        let mut cbs = Vec::new();
-        let mut live: Option<Live> = None;
-        let flush = |l: &Live, evs: &mut Vec<(bool, String)>, cbs: &mut Vec<Cb>| {
-            evs.extend(l.ev.borrow_mut().drain(..));
-            cbs.extend(l.cb.borrow_mut().drain(..));
-        };
+    /// Replays this case's history once on fresh MultiReceivers, two per key, each fed only the packets of its key
+    /// (one sleep per tick for all of them):
+    ///  * solo: the same packets and the same filter operations;
+    ///  * reference: filtering is OFF and a packet is pushed iff the independent reference counters accepted it at that
+    ///    point (so a wrong filter decision for a packet of an already open session shows as a delivery difference);
+    ///    packets edited in a delivery-neutral, RFC-legal way are replaced by what they stand for: a packet with the
+    ///    Close Session flag set = the same packet without the flag followed by a bare close-session packet (ignored
+    ///    altogether, like any close indication, when the session does not exist); a rewritten CCI = the unedited packet.
+    fn replay_all(&self, keys: &BTreeSet<String>) -> Vec<Rep> {
+        let mut reps: Vec<Rep> = Vec::new();
+        for k in keys {
+            for reference in [false, true] {
+                reps.push(Rep { key: k.clone(), reference, live: None, evs: Vec::new(), cbs: Vec::new() });
+            }
+        }
         for h in self.hist.iter() {
             match h {
+                HOp::Tick => std::thread::sleep(Duration::from_millis(TICK_MS)),
                 HOp::New(f, t) => {
-                    if let Some(l) = live.take() {
-                        let Live { mr, ev, cb } = l;
-                        drop(mr);
-                        evs.extend(ev.borrow_mut().drain(..));
-                        cbs.extend(cb.borrow_mut().drain(..));
+                    for r in reps.iter_mut() {
+                        r.finish();
+                        r.live = Some(new_live(if r.reference { false } else { *f }, *t, T_MS));
                     }
-                    live = Some(new_live(*f, *t, T_MS));
                 }
                 HOp::Drop => {
-                    if let Some(l) = live.take() {
-                        let Live { mr, ev, cb } = l;
-                        drop(mr);
-                        evs.extend(ev.borrow_mut().drain(..));
-                        cbs.extend(cb.borrow_mut().drain(..));
+                    for r in reps.iter_mut() {
+                        r.finish();
                     }
                 }
                 _ => {
-                    if let Some(l) = live.as_mut() {
+                    for r in reps.iter_mut() {
+                        let Rep { key, reference, live, evs, cbs } = r;
+                        let l = match live.as_mut() {
+                            Some(l) => l,
+                            None => continue,
+                        };
                         match h {
-                            HOp::Add(e, t) => l.mr.add_listen_tsi(e.clone(), *t),
-                            HOp::Rm(e, t) => l.mr.remove_listen_tsi(e, *t),
-                            HOp::AddAll(e) => l.mr.add_listen_all_tsi(e.clone()),
-                            HOp::RmAll(e) => l.mr.remove_listen_all_tsi(e),
-                            HOp::Filt(b) => l.mr.set_tsi_filtering(*b),
-                            HOp::Push { ep, key: k, data, now, neutral, a_edit, close } => {
-                                if k == key {
-                                    match (reference, neutral) {
-                                        (true, Some(plain)) if *a_edit => {
+                            HOp::Add(e, t) if !*reference => l.mr.add_listen_tsi(e.clone(), *t),
+                            HOp::Rm(e, t) if !*reference => l.mr.remove_listen_tsi(e, *t),
+                            HOp::AddAll(e) if !*reference => l.mr.add_listen_all_tsi(e.clone()),
+                            HOp::RmAll(e) if !*reference => l.mr.remove_listen_all_tsi(e),
+                            HOp::Filt(b) if !*reference => l.mr.set_tsi_filtering(*b),
+                            HOp::Push { ep, key: k, data, now, neutral, a_edit, close, acc } if k == key => {
+                                if !*reference {
+                                    let _ = guarded(AssertUnwindSafe(|| l.mr.push(ep, data, *now)));
+                                } else if *acc {
+                                    match neutral {
+                                        Some(plain) if *a_edit => {
                                             let open = evs.iter().rev().find(|e| e.1 == *k).map(|e| e.0).unwrap_or(false);
                                             if open {
                                                 let _ = guarded(AssertUnwindSafe(|| l.mr.push(ep, plain, *now)));
@@ -766,10 +799,10 @@ impl TsiEngine {
                                                 }
                                             }
                                         }
-                                        (true, Some(plain)) => {
+                                        Some(plain) => {
                                             let _ = guarded(AssertUnwindSafe(|| l.mr.push(ep, plain, *now)));
                                         }
-                                        _ => {
+                                        None => {
                                             let _ = guarded(AssertUnwindSafe(|| l.mr.push(ep, data, *now)));
                                         }
                                     }
@@ -778,18 +811,34 @@ impl TsiEngine {
                             HOp::Cleanup(now) => l.mr.cleanup(*now),
                             _ => {}
                         }
-                        flush(l, &mut evs, &mut cbs);
+                        evs.extend(l.ev.borrow_mut().drain(..));
+                        cbs.extend(l.cb.borrow_mut().drain(..));
                     }
                 }
             }
         }
-        if let Some(l) = live.take() {
+        for r in reps.iter_mut() {
+            r.finish();
+        }
+        reps
+    }
+}
+
+struct Rep {
+    key: String,
+    reference: bool,
+    live: Option<Live>,
+    evs: Vec<(bool, String)>,
+    cbs: Vec<Cb>,
+}
+impl Rep {
+    fn finish(&mut self) {
+        if let Some(l) = self.live.take() {
             let Live { mr, ev, cb } = l;
             drop(mr);
-            evs.extend(ev.borrow_mut().drain(..));
-            cbs.extend(cb.borrow_mut().drain(..));
+            self.evs.extend(ev.borrow_mut().drain(..));
+            self.cbs.extend(cb.borrow_mut().drain(..));
         }
-        (evs, cbs)
     }
 }
 
@@ -813,7 +862,9 @@ impl Engine for TsiEngine {
     }
 
     fn exec(&mut self, op: &str, o: &mut Oracle) -> String {
-        let t: Vec<&str> = op.split(' ').collect();
+        // annotation tokens (`#<key>=<n>`, written by the generator from this side's own report) are for the model only
+        LAST_ANNOT.with(|a| a.borrow_mut().clear());
+        let t: Vec<&str> = op.split(' ').filter(|x| !x.starts_with('#')).collect();
         if t.len() < 2 || t[0] != "tsi" {
             return "bad-op".into();
         }
@@ -1000,6 +1051,7 @@ impl Engine for TsiEngine {
                     return "bad-op".into();
                 }
                 self.had_tick = true;
+                self.hist.push(HOp::Tick);
                 std::thread::sleep(Duration::from_millis(TICK_MS));
                 self.stale = self.pending.clone();
                 "ok".into()
@@ -1087,9 +1139,9 @@ impl Engine for TsiEngine {
             self.do_drop(&mut o2);
             o.fails.extend(o2.fails);
         }
-        // isolation: per key, callbacks and listener events of the interleaved run = those of a solo run
-        // (skipped for cases with real-time ticks: the solo run would have to sleep again)
-        if self.had_tick || self.hist.is_empty() {
+        // isolation: per key, callbacks and listener events of the interleaved run = those of a solo run and of the
+        // reference run (cases with real-time ticks included: the replay sleeps once per tick for all keys together)
+        if self.hist.is_empty() {
             return;
         }
         let mut keys: BTreeSet<String> = BTreeSet::new();
@@ -1101,22 +1153,19 @@ impl Engine for TsiEngine {
         for c in self.all_cb.iter() {
             keys.insert(c.key.clone());
         }
+        let reps = self.replay_all(&keys);
         for k in keys.iter() {
-            let (sev, scb) = self.solo(k, false);
-            for c in scb.iter() {
+            let solo = reps.iter().find(|r| r.key == *k && !r.reference).unwrap();
+            let refr = reps.iter().find(|r| r.key == *k && r.reference).unwrap();
+            for c in solo.cbs.iter().chain(refr.cbs.iter()) {
                 if c.key != *k {
                     o.fail("callback-key", &format!("solo run of {} produced a callback carrying {}", k, c.key));
                 }
             }
             let a = canon(&self.all_cb, k);
-            let b = canon(&scb, k);
+            let b = canon(&solo.cbs, k);
             if a != b {
-                let toi = a
-                    .keys()
-                    .chain(b.keys())
-                    .find(|t| a.get(*t) != b.get(*t))
-                    .cloned()
-                    .unwrap_or_default();
+                let toi = a.keys().chain(b.keys()).find(|t| a.get(*t) != b.get(*t)).cloned().unwrap_or_default();
                 o.fail(
                     "isolation",
                     &format!(
@@ -1129,33 +1178,30 @@ impl Engine for TsiEngine {
                 );
             }
             let ea: Vec<&(bool, String)> = self.all_ev.iter().filter(|e| e.1 == *k).collect();
-            let eb: Vec<&(bool, String)> = sev.iter().collect();
+            let eb: Vec<&(bool, String)> = solo.evs.iter().collect();
             if ea != eb {
                 o.fail("isolation", &format!("session {}: listener events differ between the interleaved run {:?} and the solo run {:?}", k, ea, eb));
             }
-            if self.has_neutral_edits {
-                let (rev, rcb) = self.solo(k, true);
-                let r = canon(&rcb, k);
-                if a != r {
-                    let toi = a.keys().chain(r.keys()).find(|t| a.get(*t) != r.get(*t)).cloned().unwrap_or_default();
-                    o.fail(
-                        "flag-edit-delivery",
-                        &format!(
-                            "session {}: a genuine packet with the Close Session flag set / the CCI rewritten must deliver what the unedited packet delivers (then end the session), but the writer callbacks differ from the reference run (toi {}: got {:?} vs reference {:?})",
-                            k,
-                            toi,
-                            a.get(&toi),
-                            r.get(&toi)
-                        ),
-                    );
-                }
-                let er: Vec<&(bool, String)> = rev.iter().collect();
-                if ea != er {
-                    o.fail(
-                        "flag-edit-events",
-                        &format!("session {}: listener events {:?} differ from the reference run {:?} (close flag on a data packet = packet, then exactly one close)", k, ea, er),
-                    );
-                }
+            let r = canon(&refr.cbs, k);
+            if a != r {
+                let toi = a.keys().chain(r.keys()).find(|t| a.get(*t) != r.get(*t)).cloned().unwrap_or_default();
+                o.fail(
+                    "reference-delivery",
+                    &format!(
+                        "session {}: the writer callbacks differ from the reference run, which processes exactly the packets the reference counters accept and in which a genuine packet with the Close Session flag set / the CCI rewritten stands for the unedited packet (then the end of the session) (toi {}: got {:?} vs reference {:?})",
+                        k,
+                        toi,
+                        a.get(&toi),
+                        r.get(&toi)
+                    ),
+                );
+            }
+            let er: Vec<&(bool, String)> = refr.evs.iter().collect();
+            if ea != er {
+                o.fail(
+                    "reference-events",
+                    &format!("session {}: listener events {:?} differ from the reference run {:?} (accepted packets only; close flag on a data packet = packet, then exactly one close)", k, ea, er),
+                );
             }
             let nc = a.values().filter(|v| v.iter().any(|w| w == "complete")).count();
             self.completes += nc;
@@ -1227,6 +1273,20 @@ fn enumerate_fseq(ctx: &mut Ctx, eng: &mut dyn Engine, tag: &str, alpha: &[Strin
     }
 }
 
+/// like `Ctx::step`, but the operation line written for the model carries the implementation's report of how many
+/// writer callbacks each session made during the call (the real Receiver is opaque to the model driver)
+fn astep(ctx: &mut Ctx, eng: &mut dyn Engine, op: &str) -> String {
+    let mut o = Oracle::default();
+    let obs = eng.exec(op, &mut o);
+    let annot = LAST_ANNOT.with(|a| a.borrow().clone());
+    let line = format!("{}{}", op, annot);
+    ctx.op(&line, &obs);
+    for (c, d) in o.fails {
+        ctx.oracle_fail(&c, &format!("{} :: op `{}` -> `{}`", d, line, obs));
+    }
+    obs
+}
+
 struct SessSpec {
     sid: u32,
     ep: String,
@@ -1264,28 +1324,28 @@ fn session_case(ctx: &mut Ctx, eng: &mut dyn Engine, rng: &mut Rng, id: &str, or
         let seed = rng.below(1 << 20);
         let nobj = rng.range(1, 3) as u32;
         let st = get_stream(&ep, tsi, seed, nobj).unwrap();
-        let obs = ctx.step(eng, &format!("tsi sess {} {} {} {} {}", i, ep, tsi, seed, nobj));
+        let obs = astep(ctx, eng, &format!("tsi sess {} {} {} {} {}", i, ep, tsi, seed, nobj));
         debug_assert_eq!(obs, "ok");
         sess.push(SessSpec { sid: i as u32, ep, tsi, len: st.pkts.len(), cursor: 0 });
     }
     ctx.count(&format!("session cases layout {}", ["equal-tsi-distinct-endpoints", "distinct-tsi-one-endpoint", "distinct-sources", "mixed"][layout as usize]));
     let t_streams = t_case.elapsed();
     let filtering = rng.chance(1, 2);
-    ctx.step(eng, &format!("tsi new {} {}", if filtering { 1 } else { 0 }, if with_ticks { "0" } else { "-" }));
+    astep(ctx, eng, &format!("tsi new {} {}", if filtering { 1 } else { 0 }, if with_ticks { "0" } else { "-" }));
     if filtering {
         for s in sess.iter() {
             match rng.below(6) {
                 0 => {} // not listened to: every packet of this session must be skipped
                 1 => {
-                    ctx.step(eng, &format!("tsi addall {}", s.ep));
+                    astep(ctx, eng, &format!("tsi addall {}", s.ep));
                 }
                 2 => {
                     // wildcard source
                     let p: Vec<&str> = s.ep.split('/').collect();
-                    ctx.step(eng, &format!("tsi add -/{}/{} {}", p[1], p[2], s.tsi));
+                    astep(ctx, eng, &format!("tsi add -/{}/{} {}", p[1], p[2], s.tsi));
                 }
                 _ => {
-                    ctx.step(eng, &format!("tsi add {} {}", s.ep, s.tsi));
+                    astep(ctx, eng, &format!("tsi add {} {}", s.ep, s.tsi));
                 }
             }
         }
@@ -1307,16 +1367,16 @@ fn session_case(ctx: &mut Ctx, eng: &mut dyn Engine, rng: &mut Rng, id: &str, or
         if r < 12 {
             // close-session packet at a random point
             let s = &sess[si];
-            ctx.step(eng, &format!("tsi push {} {} c {}", s.ep, s.tsi, s.sid));
+            astep(ctx, eng, &format!("tsi push {} {} c {}", s.ep, s.tsi, s.sid));
             closes += 1;
             continue;
         }
         if r < 20 {
-            ctx.step(eng, "tsi cleanup");
+            astep(ctx, eng, "tsi cleanup");
             continue;
         }
         if r >= 990 && listeners.len() < 4 {
-            let obs = ctx.step(eng, "tsi ladd");
+            let obs = astep(ctx, eng, "tsi ladd");
             if let Some(id) = obs.strip_prefix("ok ").and_then(|x| x.parse::<u64>().ok()) {
                 listeners.push((id, false));
             }
@@ -1325,16 +1385,16 @@ fn session_case(ctx: &mut Ctx, eng: &mut dyn Engine, rng: &mut Rng, id: &str, or
         if r >= 984 && r < 990 {
             if let Some(e) = listeners.iter_mut().find(|e| !e.1) {
                 e.1 = true;
-                ctx.step(eng, &format!("tsi lrm {}", e.0));
+                astep(ctx, eng, &format!("tsi lrm {}", e.0));
                 // removing twice / an unknown id is a no-op
                 if rng.chance(1, 4) {
-                    ctx.step(eng, &format!("tsi lrm {}", e.0 + 17));
+                    astep(ctx, eng, &format!("tsi lrm {}", e.0 + 17));
                 }
             }
             continue;
         }
         if r < 26 {
-            ctx.step(eng, &format!("tsi push {} {} x", sess[si].ep, sess[si].tsi));
+            astep(ctx, eng, &format!("tsi push {} {} x", sess[si].ep, sess[si].tsi));
             continue;
         }
         if r < 40 && filtering {
@@ -1349,22 +1409,22 @@ fn session_case(ctx: &mut Ctx, eng: &mut dyn Engine, rng: &mut Rng, id: &str, or
                 5 => format!("tsi rm -/{}/{} {}", p[1], p[2], s.tsi),
                 _ => format!("tsi filt {}", rng.below(2)),
             };
-            ctx.step(eng, &line);
+            astep(ctx, eng, &line);
             continue;
         }
         if r < 70 && ticks < max_ticks {
             ticks += 1;
-            ctx.step(eng, "tsi tick");
+            astep(ctx, eng, "tsi tick");
             // some sessions get fresh data right after the time-out period, the others expire at the next cleanup
             for s in sess.iter_mut() {
                 if rng.chance(1, 2) && s.cursor < s.len {
-                    ctx.step(eng, &format!("tsi push {} {} d {} {}", s.ep, s.tsi, s.sid, s.cursor));
+                    astep(ctx, eng, &format!("tsi push {} {} d {} {}", s.ep, s.tsi, s.sid, s.cursor));
                     s.cursor += 1;
                     remaining -= 1;
                 }
             }
             if rng.chance(3, 4) {
-                ctx.step(eng, "tsi cleanup");
+                astep(ctx, eng, "tsi cleanup");
             }
             continue;
         }
@@ -1411,7 +1471,7 @@ fn session_case(ctx: &mut Ctx, eng: &mut dyn Engine, rng: &mut Rng, id: &str, or
                     }
                 }
             }
-            ctx.step(eng, &format!("tsi push {} {} {} {} {}{}", s.ep, s.tsi, kind, s.sid, idx, edit));
+            astep(ctx, eng, &format!("tsi push {} {} {} {} {}{}", s.ep, s.tsi, kind, s.sid, idx, edit));
             if idx == s.cursor {
                 s.cursor += 1;
                 remaining -= 1;
@@ -1419,22 +1479,22 @@ fn session_case(ctx: &mut Ctx, eng: &mut dyn Engine, rng: &mut Rng, id: &str, or
             // the same datagram received on another endpoint is another session
             if rng.chance(1, 60) {
                 let other = format!("9/{}/6000", 10 + s.sid);
-                ctx.step(eng, &format!("tsi push {} {} d {} {}", other, s.tsi, s.sid, idx));
+                astep(ctx, eng, &format!("tsi push {} {} d {} {}", other, s.tsi, s.sid, idx));
             }
         }
     }
     if rng.chance(1, 3) {
         let s = &sess[rng.below(nsess as u64) as usize];
-        ctx.step(eng, &format!("tsi push {} {} c {}", s.ep, s.tsi, s.sid));
+        astep(ctx, eng, &format!("tsi push {} {} c {}", s.ep, s.tsi, s.sid));
         closes += 1;
     }
     if rng.chance(1, 4) {
-        ctx.step(eng, "tsi cleanup");
+        astep(ctx, eng, "tsi cleanup");
     }
-    ctx.step(eng, "tsi drop");
-    ctx.step(eng, "tsi llog 0");
+    astep(ctx, eng, "tsi drop");
+    astep(ctx, eng, "tsi llog 0");
     for (id, _) in listeners.iter() {
-        ctx.step(eng, &format!("tsi llog {}", id));
+        astep(ctx, eng, &format!("tsi llog {}", id));
     }
     if !listeners.is_empty() {
         ctx.count("session cases with listeners added/removed mid-way");
